@@ -20,7 +20,7 @@ From SCC Require Import Proof.SubstGraph Proof.CodegenTotal Proof.CodegenX86 Pro
 From SCC Require Import Sem.FsFrag2 Proof.ShrinkExample2 Proof.ShrinkTyTop.
 From SCC Require Import Model.Fun2CoreTyGuard Proof.Fun2CoreTyRefute.
 From SCC Require Import Model.Uniquify Model.FocusTyGuard Proof.Fun2CoreProof Proof.Fun2CoreExamples Proof.Fun2CoreTyProg Proof.Fun2CoreTyTotal
-     Proof.UqTyTop Proof.FocusTyTop Proof.WtPipeline Proof.WtExamples2.
+     Proof.Fun2CoreIds Proof.UqTyTop Proof.FocusTyTop Proof.WtPipeline Proof.WtExamples2.
 Import ListNotations.
 
 (* ======================================================================================== *)
@@ -130,6 +130,13 @@ Print Assumptions C12_fun2core_preserves_typing_fragment2.
 Theorem C12_fun2core_total_fragment2 : forall p, prog_tyguard p = true -> exists c, compile_prog p = Fun2Core.Ok c.
 Proof. exact fun2core_total_guarded. Qed.
 Print Assumptions C12_fun2core_total_fragment2.
+
+(* Every output of fun2core satisfies C03's precondition pre_check (every variable identifier is Identifier::new,
+   id 0, and max_id = 0) - for ALL programs, no guard.  Discharges the stage-output hypothesis `pre_check c` of the
+   compositions (C01, C12) for fun2core outputs. *)
+Theorem C12_fun2core_pre_check : forall p c, compile_prog p = Fun2Core.Ok c -> pre_check c = true.
+Proof. exact fun2core_pre_check. Qed.
+Print Assumptions C12_fun2core_pre_check.
 
 (* non-vacuity: the five multi-definition programs of Proof/Fun2CoreExamples.v (recursion; shared continuations -
    at least two share_ definitions; data with case; labels/goto and a label passed as consumer argument; codata
@@ -402,17 +409,16 @@ Proof. exact pipeline_wt_fragment2_lemma. Qed.
 Print Assumptions C12_pipeline_wt_fragment2.
 
 (* THE COMPOSITION WITH NO TYPING HYPOTHESIS LEFT (round 2).  Hypotheses: the boolean guard prog_tyguard on the
-   annotated checked program, and boolean conditions on two STAGE OUTPUTS:
-     pre_check c                 of the Core program (all ids 0 for fun2core outputs; evaluated per case, never false);
+   annotated checked program, and two boolean conditions on ONE STAGE OUTPUT:
      names_ok f, decls_ok f      of the focused program (identifiers with equal ids spelled alike; parameter and field
                                  types declared - the checker's output is not closed under the types it mentions, C15).
+   (pre_check of the Core program, a hypothesis of the older compositions, is proved: C12_fun2core_pre_check.)
    Conclusion: every stage succeeds (no internal failure), every intermediate program is accepted by its checker and
    each code generator returns Ok within its documented capacity.  Replaces H_fun2core_wt and H_focus_wt of
    C12_pipeline_wt_fragment2 (H_focus_wt is false as stated, see above; H_fun2core_wt is false by
    C12_fun2core_main_result_refuted). *)
 Theorem C12_pipeline_wt : forall p,
   prog_tyguard p = true ->
-  (forall c, compile_prog p = Fun2Core.Ok c -> pre_check c = true) ->
   (forall c f, compile_prog p = Fun2Core.Ok c -> focus_prog c = Backend.Ok f ->
      FsFrag2.names_ok f = true /\ FsFrag2.decls_ok f = true) ->
   exists c f a,
